@@ -364,8 +364,9 @@ def decode_signed(data: bytes):
         sd = d["content"][1]
         tbs_bytes = CODER.encode_to_be_signed_data(sd["tbsData"])
         sd["tbsData"]["headerInfo"]["psid"]
-        if sd["signer"][0] not in ("digest", "certificate", "self"):
-            return None
+        # SignerIdentifier is an extensible CHOICE: an unrecognised alternative decodes (asn1tools: choice name None).
+        # The verify path treats everything that is neither `digest` nor `certificate` alike (psid 37: report
+        # UNSUPPORTED_SIGNER_IDENTIFIER_TYPE, otherwise Exception("Unknown signer type")): the model's `Signer.selfS`.
         return sd, tbs_bytes
     except Exception:
         return None
@@ -405,8 +406,13 @@ def abs_msg(A: "Abs", sd, tbs_bytes) -> str:
         pl = A.payload(content[1]) if content[0] == "unsecuredData" else 0
     except Exception:
         pl = 0
-    return " ".join(str(x) for x in [hi["psid"], gt if gt is not None else "-", *flags, inl, rc, signer, fmt,
-                                      sb if sb is not None else "-", pl])
+    toks = [hi["psid"], gt if gt is not None else "-", *flags, inl, rc, signer, fmt, sb if sb is not None else "-", pl]
+    if DRIVER_HAS_VARIANT:
+        # identity of the signature VALUE (model field `Msg.sig`; not read by the verify path, used by the tamper theorems)
+        if not hasattr(A, "_sigvals"):
+            A._sigvals = {}
+        toks.append(A._sigvals.setdefault(repr(sig), len(A._sigvals) + 1))
+    return " ".join(str(x) for x in toks)
 
 
 def _abs_payload(self, b) -> int:
@@ -443,16 +449,62 @@ class RealStation:
         def nats(l):
             return ".".join(str(A.h3_of(x)) for x in l) if l else "-"
         h = self.ss.cam_handler
-        return (f"u:{nats(self.ss.unknown_ats)} q:{nats(self.ss.requested_ats)} "
-                f"lf:{int(round(h.last_signer_full_certificate_time * 1000))} ro:{int(bool(h.requested_own_certificate))}")
+        out = (f"u:{nats(self.ss.unknown_ats)} q:{nats(self.ss.requested_ats)} "
+               f"lf:{int(round(h.last_signer_full_certificate_time * 1000))} ro:{int(bool(h.requested_own_certificate))}")
+        if DRIVER_HAS_VARIANT and per_ticket_variant():
+            # repaired sign service (C05-F2): inclusion time and pending request per ticket (dict / set: canonical order)
+            last = sorted((A.id_of(k), int(round(v * 1000))) for k, v in getattr(h, "last_full_certificate_time_of", {}).items())
+            owed = sorted(A.id_of(k) for k in getattr(h, "certificate_owed_by", ()))
+            out += (" lo:" + (",".join(f"{i}@{t}" for i, t in last) or "-")
+                    + " ow:" + (".".join(str(i) for i in owed) or "-"))
+        return out
 
     def dump(self, A: "Abs") -> str:
         return A.dump_store(self.lib) + " " + self.dump_sign(A)
 
 
+_PER_TICKET = None
+DRIVER_HAS_VARIANT = True      # the driver understands `new k hs pt` and the signature-value token (per-ticket model deployed)
+
+
+def per_ticket_variant() -> bool:
+    """which sign service is under test (decided by BEHAVIOUR, once per process): a station holding separate CAM and VAM
+    tickets sends a CAM and, 500 ms later, its first VAM.  The VAM ticket's certificate has never been included, so the
+    rule demands it; the code before repair C05-F2 (one inclusion timer for all tickets) sends the digest.
+    True = timer / pending requests kept per ticket (model variant `perTicket = true`)."""
+    global _PER_TICKET
+    if _PER_TICKET is None:
+        import realstack as rs
+        import flexstack.geonet.router as router_mod
+        t0 = 1_700_000_000_000
+        old_timer = router_mod.Timer
+        router_mod.Timer = NoTimer
+        try:
+            with rs.VClock(t0) as clock, rs.quiet():
+                p = PKI()
+                now = its_now_s(t0)
+                live = dict(start=now - 1000, duration=("hours", 100))
+                root = p.root("root", **live)
+                aa = p.issue(root, "aa", issue=[perm_explicit([36, 638], 1)], **live)
+                at_cam, at_vam = p.issue(aa, app=[36], **live), p.issue(aa, app=[638], **live)
+                _PER_TICKET = False          # while the probe station dumps nothing per ticket
+                st = RouterStation(p.backend, 1, [root], [aa], [], own=[at_cam, at_vam])
+                clock.ms = t0 + 10_000
+                st.send("cam", b"x", clock.ms)
+                clock.ms = t0 + 10_500
+                fr = st.send("vam", b"x", clock.ms)
+                sd = decode_signed(fr[0][4:])[0]
+                _PER_TICKET = sd["signer"][0] == "certificate"
+        except Exception:  # noqa: BLE001 - e.g. a seeded change that breaks signing: judged by the checks, not here
+            _PER_TICKET = False
+        finally:
+            router_mod.Timer = old_timer
+    return _PER_TICKET
+
+
 def new_station_lines(A: "Abs", k: int, roots, aas, ats, has_sign=True):
-    """model lines reproducing the CertificateLibrary constructor"""
-    ls = [f"new {k} {int(has_sign)}"]
+    """model lines reproducing the CertificateLibrary constructor (third token of `new`: sign-service variant)"""
+    ls = [f"new {k} {int(has_sign)}" + (f" {int(per_ticket_variant())}" if DRIVER_HAS_VARIANT else "")]
     for op, lst in (("addroot", roots), ("addaa", aas), ("addat", ats)):
         for c in lst:
             ls.append(f"{op} {k} {A.cert(c.certificate)} {A.cert(c.issuer.certificate) if c.issuer is not None else '-'}")
